@@ -41,6 +41,7 @@ type run struct {
 	opt      worker.Options
 	conn     *rpc.Conn
 	tr       *SimTransport
+	pipe     *simPipe
 	toConn   []wireMsg
 	toPeer   []wireMsg
 	peer     *peer
@@ -525,6 +526,15 @@ func runSweep(t *testing.T, tape *simrt.Tape, opt worker.Options) *worker.Outcom
 	for i := 1; i <= r0.tr.nRecv; i++ {
 		cases = append(cases, faultCase{"recv_err", i}, faultCase{"recv_eof", i})
 	}
+	if r0.pipe != nil {
+		cases = nil
+		for i := 1; i <= r0.pipe.nWrite; i++ {
+			cases = append(cases, faultCase{"short_write", i}, faultCase{"write_err_n0", i})
+		}
+		for i := 1; i <= r0.pipe.nRead; i++ {
+			cases = append(cases, faultCase{"read_err", i}, faultCase{"eof", i})
+		}
+	}
 	steps := base.Res.Steps
 	stride := 1
 	if steps > 60 {
@@ -533,7 +543,22 @@ func runSweep(t *testing.T, tape *simrt.Tape, opt worker.Options) *worker.Outcom
 	for j := 1; j <= steps; j += stride {
 		cases = append(cases, faultCase{"close", j}, faultCase{"close2", j}, faultCase{"cancel", j})
 	}
+	total := len(cases)
+	if len(cases) > 600 {
+		// very long scenarios: keep every k-th case so that one sweep stays bounded (reported in the evidence)
+		k := (len(cases) + 599) / 600
+		var kept []faultCase
+		for i, c := range cases {
+			if i%k == 0 {
+				kept = append(kept, c)
+			}
+		}
+		cases = kept
+	}
 	agg := &worker.Outcome{Res: base.Res, Probes: map[string]int{}, Faults: map[string]int{}, NonTrivial: true, Key: base.Key}
+	if total != len(cases) {
+		agg.Probes["sweep_scenarios_thinned"]++
+	}
 	for k, v := range base.Probes {
 		agg.Probes[k] += v
 	}
@@ -562,7 +587,12 @@ func runSweep(t *testing.T, tape *simrt.Tape, opt worker.Options) *worker.Outcom
 	agg.Probes["sweep_cases"] += len(cases)
 	agg.Probes["sweep_cases_fault_fired"] += fired
 	agg.Probes["sweep_scenarios"]++
-	agg.Sample = map[string]interface{}{"scenario": r0.desc, "transport_ops": map[string]int{"new": r0.tr.nNew, "send": r0.tr.nSend, "recv": r0.tr.nRecv}, "steps": steps, "sweep_cases": len(cases), "cases_in_which_the_fault_fired": fired}
+	tops := map[string]int{"new": r0.tr.nNew, "send": r0.tr.nSend, "recv": r0.tr.nRecv}
+	if r0.pipe != nil {
+		tops = map[string]int{"write": r0.pipe.nWrite, "read": r0.pipe.nRead}
+		agg.Probes["sweep_scenarios_stream_transport"]++
+	}
+	agg.Sample = map[string]interface{}{"scenario": r0.desc, "transport_ops": tops, "steps": steps, "sweep_cases": len(cases), "cases_in_which_the_fault_fired": fired}
 	return agg
 }
 
@@ -590,7 +620,25 @@ func (r *run) mainTask() {
 	for i := s.Choice("extra-apps", 3); i > 0; i-- {
 		r.newAppCap()
 	}
-	r.conn = rpc.NewConn(r.tr, &rpc.Options{BootstrapClient: boot.client.AddRef(), ErrorReporter: reporter{r}})
+	var transport rpc.Transport = r.tr
+	topo := "A"
+	if r.prop == "C09" && s.Choice("topology", 3) == 0 {
+		// topology C: the real stream transport over a byte pipe
+		topo = "C"
+		r.pipe = &simPipe{r: r, s: s, chunk: []int{0, 1, 7, 8, 64}[s.Choice("pipe-chunk", 5)]}
+		switch r.fault.kind {
+		case "short_write":
+			r.pipe.shortWriteAt, r.pipe.shortKeep = r.fault.at, 1+s.Choice("short-keep", 24)
+		case "write_err_n0":
+			r.pipe.writeErr0At = r.fault.at
+		case "read_err":
+			r.pipe.readErrAt = r.fault.at
+		case "eof":
+			r.pipe.eofAt = r.fault.at
+		}
+		transport = rpc.NewStreamTransport(r.pipe)
+	}
+	r.conn = rpc.NewConn(transport, &rpc.Options{BootstrapClient: boot.client.AddRef(), ErrorReporter: reporter{r}})
 	r.peerBudget = 2 + s.Choice("peer-budget", 10)
 	if r.prop == "C08" {
 		r.hostile = true
@@ -598,7 +646,7 @@ func (r *run) mainTask() {
 		r.peerBudget += r.hostileBudget
 	}
 	r.ncallers = s.Choice("ncallers", 3)
-	r.desc = append(r.desc, fmt.Sprintf("topology A: peer budget %d, %d local callers, %d app caps", r.peerBudget, r.ncallers, len(r.apps)))
+	r.desc = append(r.desc, fmt.Sprintf("topology "+topo+": peer budget %d, %d local callers, %d app caps", r.peerBudget, r.ncallers, len(r.apps)))
 	s.AddEvent("release-slow-call", func() bool {
 		for _, ac := range r.started {
 			if ac.waiting && !ac.release {
